@@ -83,3 +83,26 @@ Definition run_multi_cert (w : world) (acts : list tact) (steps : list (nat * ta
   let '(ok, t') := cert_steps w t (map (fun s => (fst s, act_of (snd s))) steps) in
   (sched_out t, (if feasible (wdur w) (w_veh w) t then 1 else 0), (if ok then 1 else 0),
    (if feasible (wdur w) (w_veh w) t' then 1 else 0)).
+
+(* ---------- C20: quotes vs realised objective changes on one target tour ---------- *)
+From VRP Require Import Model.Objectives.
+(* kind 0: last layer = cost objective; kind 1: last layer = distance objective *)
+Definition run_c20 (w : world) (acts : list tact) (j : single) (kind : Z) :=
+  let t := build_tour w acts in
+  let v := w_veh w in
+  let res := if kind =? 0
+             then eval_single_job (wdur w) (wdist w) v (w_shift_start w) (closed w) t j PAny
+             else eval_single_job_dist (wdur w) (wdist w) v (w_shift_start w) (closed w) t j PAny in
+  match res with
+  | ESuccess idx (pi, l, s, a, b) c =>
+    let x := mkAct (s_id j) l s a b (s_dem j) 0 0 in
+    let t' := reschedule (wdur w) (insert_after t idx x) in
+    (res_out res,
+     [ (if has_jobs t then 0 else 1);                                   (* tours layer quote *)
+       route_distance (wdist w) t; total_distance (wdist w) t';
+       route_cost (wdist w) v t; cost_fitness (wdist w) v t';
+       (if no_waitb t then 1 else 0); (if no_waitb t' then 1 else 0);
+       leg_estimate (wdist w) t idx x; cost_quote (wdur w) (wdist w) v t idx x ],
+     sched_out t')
+  | EFailure _ _ => (res_out res, [], [])
+  end.
